@@ -70,7 +70,7 @@ CHECKS["C18"] = cfg(
 CHECKS["C07"] = cfg(
     "C07",
     technique="runtime monitoring: generated credentials/presentations -> serialize_jwt -> claims-shape oracle -> back-conversion through the validators (always-Ok verifier) compared with the original; enumerated tampered claim sets",
-    level_text="Credentials and presentations generated over every optional field are converted to JWT claims by the library; the claims are checked for the registered claims carried exactly once and for vc/vp not repeating them, then converted back through the only public path (validators with an always-Ok verifier) and compared for equality. All 15552 tampering vectors (each duplicated member absent/equal/different x registered claim present/absent x iat/nbf forms) plus numeric dates at the range ends are fed to the same path: disagreeing duplicates and out-of-range dates must be rejected.",
+    level_text="Credentials and presentations generated over every optional field are converted to JWT claims by the library; the claims are checked for the registered claims carried exactly once and for vc/vp not repeating them, then converted back through the only public path (validators with an always-Ok verifier) and compared for equality. All 20736 tampering vectors (each duplicated member absent/equal/different x registered claim present/absent x iat/nbf forms) plus numeric dates at the range ends are fed to the same path: disagreeing duplicates and out-of-range dates must be rejected.",
     min={"quick": {"credentials_serialized": 3000, "credential_backconversions": 2000, "presentation_backconversions": 800,
                    "tampered_accepted": 100, "tampered_rejected": 3000, "nontrivial": 1000},
          "thorough": {"credentials_serialized": 100000, "credential_backconversions": 80000, "tampered_rejected": 20000, "nontrivial": 5000}},
